@@ -359,7 +359,15 @@ def rule_future(ck, fi):
         bound = None      # seconds, when a recognised fact bounds the future offset
         days0 = False
         secs_lt = None
+        exp_facts = set()
         for t, pol in expanded_facts(fi, facts[c.id]):
+            if t.startswith("@"):
+                continue
+            try:
+                exp_facts.add((q.unparse(expand_locals(fi, ast.parse(t, mode="eval").body, keep={date, now})), pol))
+            except SyntaxError:
+                continue
+        for t, pol in sorted(exp_facts):
             if D not in t or t.startswith("@"):
                 continue
             if isinstance(ast.parse(t, mode="eval").body, ast.BoolOp):
